@@ -546,7 +546,8 @@ int main(int argc, char **argv)
             memcpy(save, s->perm_r, s->n * sizeof(int_t));
             if (!s->permc_ready) { get_perm_c(0, &s->A, s->perm_c); s->permc_ready = 1; }
             do_call(opidx, "query", s, api, nprocs, refact, 0, 1.0, DOFACT, -1, relax, panel, NOTRANS, 1, rhs, 0);
-            if (restore) { memcpy(s->perm_r, save, s->n * sizeof(int_t)); s->equed = save_equed; }
+            if (restore) memcpy(s->perm_r, save, s->n * sizeof(int_t));
+            s->equed = save_equed;   /* equed is an OUTPUT argument of p?gssvx (set to NOEQUIL for fact != FACTORED): the caller keeps its own copy */
             SUPERLU_FREE(save);
             free(rhs); ++opidx;
         } else if (!strcmp(tok, "qspace")) {
